@@ -99,6 +99,9 @@ def strategy():
                         s2 = e1 - ln2 + draw(st.integers(1, 8))
                 r2 = draw(read(ref, s2, ln2))
             frags.append({'r1': r1, 'r2': r2})
+        # a fragment that cannot be evaluated (a mate without MD tag): it casts no vote, wherever it stands in the molecule
+        if nfrag >= 2 and draw(st.integers(0, 5)) == 0:
+            frags[draw(st.integers(0, nfrag - 1))]['nomd'] = draw(st.sampled_from(['r1', 'r2']))
         return {'ref': ref, 'r1_rev': r1_rev, 'frags': frags, 'dove_safe': draw(st.sampled_from([False, False, True])),
                 'prior': draw(st.sampled_from([None, None, True, False])),
                 'merge': draw(st.sampled_from([None, None, None, 1, 2, 3])),
@@ -145,7 +148,8 @@ def build_fragment(h, ref, i, f, r1_rev):
         a = mk_read(h, 'frag%d' % i, 0, r['pos'], r['seq'], reverse=rev, sample='cellA', umi='ACG', cigar=r['cigar'],
                     qual=''.join(chr(33 + q) for q in r['qual']), paired=True, read2=(which == 'r2'),
                     mate=((0, other['pos'], not rev, False) if other is not None else (0, 0, False, True)))
-        a.set_tag('MD', md_tag(ref, r['pos'], r['seq'], r['cigar']))
+        if f.get('nomd') != which:
+            a.set_tag('MD', md_tag(ref, r['pos'], r['seq'], r['cigar']))
         reads.append(a)
     return Fragment(reads, assignment_radius=10 ** 6, umi_hamming_distance=0)
 
@@ -158,6 +162,8 @@ def mate_calls(r):
 
 def fragment_calls(f, r1_rev, dove_safe):
     """position -> base (one call per fragment, None = no vote) by the statement's rule."""
+    if f.get('nomd') and f[f['nomd']] is not None:
+        return {}
     c1, c2 = mate_calls(f['r1']), mate_calls(f['r2'])
     if dove_safe:
         if f['r2'] is None:
